@@ -5,6 +5,7 @@ Driver for `_disambiguate_values` (C06).  Stateless.
 
   D <kind><sign>,<kind><sign>,...     kind: n (NumberExpr) | a (Amount) | o (anything else); sign: 0 | 1;  `-` = no value
   → ok <w><w>... read=<k>             w = 1 when that value was put in parentheses; k = values the reader sees
+  D raw <kind><sign>,...              the values as they are (no disambiguation)  → ok read=<k>
 -/
 open Autobean.CustomVals
 namespace Driver
@@ -21,6 +22,11 @@ def parseCVal (s : String) : Option CVal :=
 
 def customStep (args : List String) : String :=
   match args with
+  | ["raw", a] =>
+    let vs : Option (List CVal) := if a = "-" then some [] else (a.splitOn ",").mapM parseCVal
+    match vs with
+    | none => "!bad-args"
+    | some vs => "ok read=" ++ toString (readCount vs)
   | [a] =>
     let vs : Option (List CVal) := if a = "-" then some [] else (a.splitOn ",").mapM parseCVal
     match vs with
